@@ -249,8 +249,8 @@ def run_unit(prop, unit, pcfg, cache, usize=8, seed=None, want_canary=True, forc
                     r = dict(r, have_results=True, verified=0, errors=len(comp), diags=[])
         return r, cfails
     with ThreadPoolExecutor(max_workers=2) as tp:
-        f1 = tp.submit(verify, gpath, gen, 16 if not want_canary else 10)
-        f2 = tp.submit(verify, cpath, genc, 6) if want_canary else None
+        f1 = tp.submit(verify, gpath, gen, 16)
+        f2 = tp.submit(verify, cpath, genc, 4) if want_canary else None
         res, comp_fails = f1.result()
         cres = f2.result()[0] if f2 else None
     if not res['have_results'] and depth < 4:
@@ -331,8 +331,13 @@ def main():
     runs = []
     extra = {}
     try:
-        for unit in units:
-            runs.append(run_unit(prop, unit, pcfg, cache))
+        if len(units) > 1:
+            from concurrent.futures import ThreadPoolExecutor
+            with ThreadPoolExecutor(max_workers=len(units)) as tp:
+                futs = [tp.submit(run_unit, prop, unit, pcfg, cache) for unit in units]
+                runs = [f.result() for f in futs]
+        else:
+            runs.append(run_unit(prop, units[0], pcfg, cache))
         kani_sel = list(pcfg.get('kani_quick', [])) + (list(pcfg.get('kani_thorough', [])) if tier == 'thorough' else [])
         if kani_sel:
             import kani_run
